@@ -1,12 +1,81 @@
 # -*- python -*-  (exec'd by gen_manifest.py)
 not_applicable = {
  "C16": "data-race freedom and schedule independence quantify over goroutine interleavings; sequential function contracts (pre/post/invariant) cannot express or decide them, and no concurrent program logic for Go is available in this sandbox (DESIGN.md section 9, C16)",
+ "C07": "byte-level encode/decode round trip and header-flag contracts are not built: they need the bit-vector mode for flag.go and write-through views of the Encoder scratch buffer, which the generator does not have yet; no contract within reach decides the property (DESIGN.md, Status)",
+ "C11": "only supporting obligations exist so far (child-index maintenance, handle registration); the deciding clauses (stale-handle mismatch branch of the updater closure leaves the former parent untouched; overwrite/removal deletes the index entry and uninlines the detached child) are not discharged yet, so the property is not claimed",
+ "C13": "iterator step contracts are not written yet and the loaded-value iterators would need a bounded stand-in; only the pop bookkeeping of ArrayDataSlab.PopIterate is proved, which does not decide the property",
+ "C17": "bulk build / copy / byte-conversion functions (NewArrayFromBatchData, nextLevel*Slabs, copyWithNewSlabID, ByteSliceToByteArray) are not under contract yet",
 }
-PENDING = "contracts for this property are still under construction in this build; not claimed until its obligations discharge on the unchanged tree (DESIGN.md section 0)"
-for p in ["C01","C02","C03","C04","C06","C07","C08","C09","C10","C11","C12","C13","C14","C15","C17","C18","C19","C20"]:
-    not_applicable[p] = PENDING
 
+A_TREE = ("Composition to whole trees is by the assumed tree invariant one level down (childrenReady / rootReady / frame assumption F, listed per run); "
+          "the induction over tree height is not machine-checked. ")
+
+add("C01",
+    "Unbounded per-function proofs: leaf sequence operations of ArrayDataSlab (Get/Set/Insert/Remove/Split/Merge/LendToRight/BorrowFromRight) are exact on contents, order, count; "
+    "index routing (childSlabIndexInfo, linear and binary search, with an induction lemma on cumulative counts); parent bookkeeping of ArrayMetaDataSlab "
+    "(SplitChildSlab, rebalanceChildren, mergeChildren, MergeOrRebalanceChildSlab, Set/Insert/Remove: cumulative counts, header refresh, child headers agree with stored children); "
+    "root split / promotion keep the root identifier and the element count; every mutator ends with the touched slabs stored.",
+    A_TREE + "ArrayMetaDataSlab.LendToRight/BorrowFromRight are trusted contracts. Element sizes are stable during one slab operation (A4).",
+    "DESIGN.md Status, 9/C01")
+add("C02",
+    "Per-function proofs on the map side: hkeyElements.getElement/Set/Remove/Merge (strictly ascending digests, exact insert/update/delete positions, size bookkeeping on insertion paths), "
+    "MapMetaDataSlab routing by first key (getChildSlabByDigest) and parent bookkeeping (SplitChildSlab, rebalanceChildren, mergeChildren, MergeOrRebalanceChildSlab, Set, Remove), "
+    "index-slab Split/Merge/LendToRight/BorrowFromRight; OrderedMap.set/remove notification.",
+    A_TREE + "MapDataSlab operations are header-level trusted contracts (their bodies delegate to the element lists); element-level Get/Set/Remove are interface contracts; key equality and digests are uninterpreted functions of their arguments (A5). Dictionary semantics across the whole tree is composition.",
+    "DESIGN.md Status, 9/C02")
+add("C03",
+    "Ledger frame: no function of PersistentSlabStorage other than commit/FastCommit/NondeterministicFastCommit changes the ledger ghost (sameLedger post-conditions); commit post-condition and loop invariant (processed prefix written, rest untouched, temp-address ids never passed to the ledger); "
+    "dirty protocol: every array/map slab mutator that writes a standalone slab ends with that slab stored (has(stored, x) clauses).",
+    "BaseStorage register operations are atomic maps (A3, assumed iface contracts); encoder goroutines are cut (A7); dec(enc(s)) = s (A8). Reconstruction by a fresh storage is the lemma view_fresh = dec∘ledger, not re-proved here.",
+    "DESIGN.md Status, 9/C03")
+add("C04",
+    "sortedOwnedDeltaKeys returns exactly the owned pending ids, each once, strictly ascending in (owner, index); its comparator closure is proved to be that order; FastCommit's apply loop issues register operations in that order (ghost write log); "
+    "every range-over-map loop under contract is proved for an arbitrary iteration order; digests depend only on key bytes and seed: basicDigester.Reset/putDigester return clean digesters, builder and Digest(level) contracts.",
+    "sort.Slice modelled as a permutation ordered by the proved relation; sync.Pool invariant trusted (getBasicDigester); independence from goroutine schedule and process is not decided (cuts).",
+    "DESIGN.md Status, 9/C04")
 add("C05",
-    "Unbounded proof, per function, for a symbolic slab size t in [256,32768] and arbitrary element sizes/counts: setThreshold establishes the threshold invariant; ArrayDataSlab Split/LendToRight/BorrowFromRight/Merge/CanLendToLeft/CanLendToRight/IsFull/IsUnderflow keep header.size = prefix + sum of element sizes, keep both siblings inside [min,max], non-empty, and elements within the inline limit.",
-    "Assumes A4 (element ByteSize is a stable function of the element, >= 1) and the frame assumption F. Tree-level lifting is composition, not machine-checked.",
-    "DESIGN.md 9/C05")
+    "Unbounded proof, per function, for a symbolic slab size t in [256,32768] and arbitrary element sizes/counts: setThreshold establishes the threshold invariant; data-slab and index-slab Split/LendToRight/BorrowFromRight/Merge/CanLend* of arrays and map index slabs keep sizes inside [min,max], siblings non-empty, header.size = prefix + sum; "
+    "parents keep every child header in band after Set/Insert/Remove (array and map index slabs); splitRoot yields exactly two in-band children.",
+    A_TREE + "A4 (element ByteSize >= 1). MapDataSlab band contracts are trusted at slab level.",
+    "DESIGN.md Status, 9/C05")
+add("C06",
+    "Size bookkeeping only: header.size = prefix + sum of element sizes is a post-condition of every array data-slab operation; index-slab sizes = prefix + n*headerSize; prefix swaps at root split/promotion and inline/uninline are exact; hkeyElements size on insertion paths; the V1 array index-slab decoder recomputes the same formula.",
+    "The encoder byte counter (bytes written = reported size) is NOT built; this check decides only the in-memory size equations that the encoders report.",
+    "DESIGN.md Status, 9/C06")
+add("C08",
+    "Storage layer: Retrieve / RetrieveIgnoringDeltas / RetrieveIfLoaded return the overlay view whichever layer serves; they change only the cache and never the view; cache coherence (invCoh) is preserved by every storage operation including DropCache and the sequential BatchPreload; the V1 index-slab decoder returns a normal-form slab.",
+    "A8 dec(enc(s)) = s; container-level schedule quantification (commit/evict/reopen between container operations) is composition, not decided.",
+    "DESIGN.md Status, 9/C08")
+add("C09",
+    "Per-function reference/liveness balance: Split/splitRoot store exactly the new ids; mergeChildren/promoteChildAsNewRoot/Inline remove exactly the id that stops being referenced; children ids stay pairwise distinct and agree with stored slabs (metaLinked / mLinked); storage-frame post-conditions (other ids untouched); child-reference enumeration complete for data and index slabs.",
+    A_TREE + "Global 'storage = reachable set' is composition.",
+    "DESIGN.md Status, 9/C09")
+add("C10",
+    "Notification sweep (ghost counter): Array.set/Insert/remove/SetType/PopIterate and OrderedMap.set/remove/PopIterate end every successful path with the parent notification; Array/OrderedMap.Storable inline exactly when the root is a data slab whose inlined size fits, return the slab itself iff inlined, keep the slab id (hence the value id), with exact prefix swap; Inline/Uninline of both data slabs; child-index maintenance under insert/remove for any map iteration order. "
+    "One genuine defect found by this check and repaired in /repo (fix: 47c9461, PopIterate did not notify).",
+    "The parent updater itself is a function value (its effect is havoc of the heap, A2/F); depth >= 3 is covered only through the recursive use of the same contracts.",
+    "DESIGN.md Status, 9/C10, KNOWN_FINDINGS")
+add("C12",
+    "hkeyElements.Set at level 0: a new key whose digest group already holds more than the (symbolic) limit of entries is refused with a collision-limit error and the element list and storage view are unchanged; any error leaves the list's own fields unchanged; strictly ascending digests preserved by Set/Remove.",
+    "Element-level group operations (inline/external group spill and collapse) are interface contracts, not verified bodies; digests are uninterpreted per (key, level).",
+    "DESIGN.md Status, 9/C12")
+add("C14",
+    "commit and FastCommit (apply phase): at every return, error or not, processed ids are written and no longer pending, unprocessed ids are still pending with untouched registers, and the overlay view is unchanged for every id; a ledger error is returned categorised; NondeterministicFastCommit: partition loop for any map order, single-slab path, deletion loop and result loop (second view) preserve the view and coherence.",
+    "A3 atomic register operations; A7 cuts: encoder goroutines / received results are assumed to be (id, EncodeSlab(deltas[id])); the retry-convergence lemma is an induction over these post-conditions, not re-proved by the solver.",
+    "DESIGN.md Status, 9/C14")
+add("C15",
+    "Every PersistentSlabStorage method in the sequential subset against the write-back overlay model (Store, Remove, Retrieve*, commit, FastCommit apply phase, DropDeltas, DropCache, GenerateSlabID, sequential BatchPreload, Deltas, DeltasWithoutTempAddresses, DeltasSizeWithoutTempAddresses, HasUnsavedChanges) with the coherence invariant.",
+    "A3, A7, A8; cardinality/size observers are defined by recursion on set insertion (definitional axioms).",
+    "DESIGN.md Status, 9/C15")
+add("C18",
+    "Argument rejections: out-of-range index at leaf and index slabs, absent digest / key below the first key, undefined slab id in Store/Remove, array at maximum count each return the stated category and leave receiver, storage view and touched set unchanged; wrapErrorfAsExternalErrorIfNeeded and the error constructors are proved to categorise; errors passed up by the functions under contract are categorised.",
+    "errors.As is modelled on the outermost wrapper (two constructors that rely on Unwrap are trusted); a sweep over all request paths is partial: only functions under contract are covered.",
+    "DESIGN.md Status, 9/C18")
+add("C19",
+    "For arbitrary input bytes: newArrayMetaDataSlabFromDataV1 has every index/slice/conversion in range, allocations bounded by the input length, returns error or a normal-form slab; safeAdd2/3Uint32 exact. Violations of these safety obligations are replayed on the real code from the solver model.",
+    "Only this decoder and the arithmetic helpers are covered so far; the CBOR-based decoders need assumed contracts of the stream decoder and are not under contract.",
+    "DESIGN.md Status, 9/C19")
+add("C20",
+    "Child-reference enumeration is complete and order-preserving for ArrayDataSlab, ArrayMetaDataSlab, MapMetaDataSlab and for map elements (single element: key and value; external group: its slab reference; inline group: its nested list).",
+    "CheckStorageHealth and getAllChildReferences themselves (graph reachability over an unbounded storage) are not decided; no bounded stand-in is built.",
+    "DESIGN.md Status, 9/C20")
